@@ -338,11 +338,19 @@ impl<'a> PlanBuilder<'a> {
         // Initialize frontier with all operators that can be executed
         // from initially-available values.
         let mut frontier: Vec<(NodeId, &OperatorNode)> = Vec::new();
+
+        // Operators which have been added to the frontier. Each operator is
+        // scheduled at most once. In a malformed graph where an operator
+        // writes to a value that was already available (eg. a graph input),
+        // its dependents would otherwise be scheduled again, forever.
+        let mut scheduled: FxHashSet<NodeId> = FxHashSet::default();
+
         for (op_node_id, op_node) in &self.plan {
             if self
                 .graph
                 .operator_dependencies(op_node)
                 .all(|id| resolved_values.contains(id))
+                && scheduled.insert(*op_node_id)
             {
                 frontier.push((*op_node_id, op_node));
             }
@@ -377,7 +385,7 @@ impl<'a> PlanBuilder<'a> {
                     continue;
                 };
                 for (candidate_op_id, candidate_op) in deps {
-                    if frontier.iter().any(|(op_id, _)| op_id == candidate_op_id) {
+                    if scheduled.contains(candidate_op_id) {
                         continue;
                     }
 
@@ -386,6 +394,7 @@ impl<'a> PlanBuilder<'a> {
                         .operator_dependencies(candidate_op)
                         .all(|id| resolved_values.contains(id))
                     {
+                        scheduled.insert(*candidate_op_id);
                         frontier.push((*candidate_op_id, candidate_op));
                     }
                 }
